@@ -501,3 +501,33 @@ Proof.
   apply G. apply incl_refl.
 Qed.
 End MT.
+
+(* ---------- McxVchainDirty, action_only on its own ---------- *)
+Theorem vchain_action_only_split k p : 1 <= k ->
+  exists R : list sgate, (forall g q, In g R -> In q (sq g) -> q < McxAll.tpos k) /\ Forall swf R /\
+  forall psi, srun (vchain k 1 p false false) psi = srun R (srun (vchain k 1 p false true) psi).
+Proof.
+  intros Hk. destruct (le_lt_dec k 3) as [Hs|Hb].
+  - exists []. split; [intros g q []|]. split; [constructor|]. intros psi.
+    assert (E : vchain k 1 p false true = vchain k 1 p false false).
+    { unfold vchain. destruct k as [|[|[|[|j]]]]; try lia; reflexivity. }
+    now rewrite E.
+  - destruct k as [|[|[|j]]] eqn:EK; try lia. assert (Hj : 1 <= j) by lia.
+    set (X := xs p (S (S (S j)))).
+    assert (Eex : vchain (S (S (S j))) 1 p false false = X ++ general j 1 false true ++ chain_gates j ++ X).
+    { unfold vchain. cbn [negb andb]. replace (j =? 0) with false by (symmetry; apply Nat.eqb_neq; lia).
+      cbn [andb]. rewrite general_ao_split. now rewrite <- !app_assoc. }
+    assert (Eao : vchain (S (S (S j))) 1 p false true = X ++ general j 1 false true ++ X).
+    { unfold vchain. cbn [negb andb]. replace (j =? 0) with false by (symmetry; apply Nat.eqb_neq; lia). reflexivity. }
+    assert (TP : McxAll.tpos (S (S (S j))) = 2 * j + 4) by (unfold McxAll.tpos; cbn; lia).
+    exists (X ++ chain_gates j ++ X). split; [|split].
+    + intros g q Hg Hq. rewrite TP. apply in_app_or in Hg as [H0|H0]; [|apply in_app_or in H0 as [H0|H0]].
+      * pose proof (xs_ctl (S (S (S j))) p ltac:(lia) g q H0 Hq). lia.
+      * pose proof (chain_bounded j 1 ltac:(lia)) as CB. rewrite Forall_forall in CB. pose proof (CB g H0 q Hq). lia.
+      * pose proof (xs_ctl (S (S (S j))) p ltac:(lia) g q H0 Hq). lia.
+    + apply Forall_app; split; [apply xs_swf|]. apply Forall_app; split; [|apply xs_swf].
+      pose proof (chain_gates_lwf j) as F. apply Forall_forall. intros g Hg. rewrite Forall_forall in F.
+      specialize (F g Hg). destruct g as [q|n q|c t|cs t]; cbn [lwf swf] in *; auto; try tauto.
+      destruct F as [_ F]. rewrite Forall_forall in F. intros I. destruct (F t I). congruence.
+    + intros psi. rewrite Eex, Eao. rewrite !srun_app. unfold X. now rewrite xs_xs.
+Qed.
